@@ -321,10 +321,6 @@ def paint_caption(r, pol, st):
   for row in rows:
     st["used"].add(row)
     p, col = gen_pac(r, row)
-    if not pol.clean and r.random() < 0.08:
-      # the screen is erased after the cursor has been moved and before anything is written there
-      p = p + [("c", w_ctrl("EDM"))]
-      st["used"] = {row}
     b = p + gen_row_text(r, 32 - col, pol.rich)
     if len(lines[-1]) > (1 if units else 0) and r.random() < 0.3:
       lines.append(b)
@@ -1234,6 +1230,42 @@ def evaluate_doubling(text, text2, cfg_name):
 FAMILIES = ["pop", "roll", "paint", "mixed"]
 
 
+def _scc(*lines):
+  """lines: (frame count, [words as (b1, b2)]) -> SCC text, 30 fps non-drop, odd parity"""
+  txt = ["Scenarist_SCC V1.0", ""]
+  for n, ws in lines:
+    h, m, s_, f = smpte.label(n, NDF)
+    txt.append(f"{h:02d}:{m:02d}:{s_:02d}:{f:02d}\t" + " ".join(f"{odd_parity(a):02x}{odd_parity(b):02x}" for a, b in ws))
+    txt.append("")
+  return "\n".join(txt) + "\n"
+
+
+def _t(text):
+  b = [ord(c) for c in text]
+  if len(b) % 2:
+    b.append(0)
+  return [(b[i], b[i + 1]) for i in range(0, len(b), 2)]
+
+
+def directed_streams():
+  """orderings of otherwise independent operations that the random grammars do not produce (each is small and unambiguous)"""
+  C_, P_ = w_ctrl, lambda row, attr=0: w_pac(row, attr, False)
+  out = []
+  # paint-on: the screen is erased after the cursor has been moved by a PAC and before anything is written at the new position
+  out.append(_scc((300, [C_("RDC"), P_(3)] + _t("TOP LINE")), (400, [C_("RDC"), P_(12), C_("EDM")] + _t("LOWER LINE")), (500, [C_("EDM")])))
+  out.append(_scc((300, [C_("RDC"), P_(5)] + _t("ONE")), (400, [P_(14), C_("EDM")] + _t("TWO")), (460, [P_(15)] + _t("THREE")), (560, [C_("EDM")])))
+  # paint-on: erase, then text at the position the cursor already has (no PAC after the erase)
+  out.append(_scc((300, [C_("RDC"), P_(7)] + _t("AB")), (360, [C_("EDM")] + _t("CD")), (460, [C_("EDM")])))
+  # pop-on: three captions without ENM / EDM, the file ends without an erase
+  out.append(_scc((300, [C_("RCL"), P_(14)] + _t("FIRST") + [C_("EOC")]), (400, [C_("RCL"), P_(15)] + _t("SECOND") + [C_("EOC")]),
+                  (500, [C_("RCL"), P_(13)] + _t("THIRD") + [C_("EOC")])))
+  # pop-on: a colour mid-row code directly followed by the italics mid-row code, sent once and sent twice
+  out.append(_scc((300, [C_("RCL"), P_(15)] + _t("AB") + [w_midrow(1, False), w_midrow(7, False)] + _t("CD") + [C_("EOC")]), (400, [C_("EDM")])))
+  out.append(_scc((300, [C_("RCL"), C_("RCL"), P_(15), P_(15)] + _t("AB") + [w_midrow(1, False)] * 2 + [w_midrow(7, False)] * 2 + _t("CD") + [C_("EOC"), C_("EOC")]),
+                  (400, [C_("EDM"), C_("EDM")])))
+  return out
+
+
 def run_chunk(job):
   seed, tier, family, lo, hi = job
   logging.disable(logging.CRITICAL)
@@ -1282,6 +1314,14 @@ def main():
       jobs.append((args.seed, args.tier, fam, lo, min(per_family, lo + chunk)))
   for part in parallel(run_chunk, jobs):
     rec.merge(part)
+  for k, text in enumerate(directed_streams()):
+    fails, info = evaluate(text, None)
+    fp = hashlib.sha1(text.encode()).hexdigest()[:16]
+    for c in (C_ACCEPT, C_FRAME, C_TEXT, C_ROWS, C_TIME):
+      rec.evaluated(c, fp, None, nontrivial=info["changes"] > 0)
+    for (key, contract, summary, observed, required) in fails:
+      rec.fail(key, contract, f"(directed stream {k}) " + summary, {"scc": text, "config": None, "family": "directed"}, observed, required, REPLAYER,
+               {"scc": text, "config": None})
   return rec.dump(args.out)
 
 
